@@ -13,6 +13,8 @@ NOT_YET = {
     "C16": ["PFOR, group, Elias, BP128, adaptive, float metadata: monitors + correspondence only so far"],
     "C05": [],
     "C11": [],
+    "C17": ["that the compiled codecs access nothing outside their arguments (the theorem's premise) and race freedom under the real "
+            "memory model are facts about the binary: ThreadSanitizer run + regenerated statics list, not theorems (property is PARTIAL)"],
     "C15": ["completeness of the list of residue sites, and what the compiler does with an uninitialised read, are facts about the "
             "binary: carried by the perturbed correspondence runs and memcheck, not by a theorem (property is PARTIAL)"],
     "C18": ["crash- and leak-freedom (facts about the binary: observed by the sweep, not theorems); the stateless codecs are "
